@@ -411,15 +411,16 @@ def discharge(tonic, b, bb, kind, what, t, dc):
     gs = b.edge_guards(bb)
     gtxt = [(v, show(tm)[:90]) for s, v, tm in gs]
     hs = spec('wire')['header_size']
+    RBUF = decode_buf_fields(tonic)[0]
     # (a) header getters behind remaining() >= HEADER_SIZE
     if kind == 'buf' and ('get_u8' in what or 'get_u32' in what) and b.path.endswith('StreamingInner::decode_chunk'):
         need = 0
         for bb2, t2 in b.calls(pat='bytes::Buf::get_'):
             need += {'get_u8': 1, 'get_u32': 4, 'get_u16': 2, 'get_u64': 8}.get(t2.get('name'), 99)
-        okg = any(tm[0] == 'bin' and tm[1] == 'Lt' and is_call(strip_refs(tm[2]), name='remaining') and mentions_field(tm[2], 'buf') and const_val(tm[3]) == hs and vals == [0]
+        okg = any(tm[0] == 'bin' and tm[1] == 'Lt' and is_call(strip_refs(tm[2]), name='remaining') and mentions_field(tm[2], RBUF) and const_val(tm[3]) == hs and vals == [0]
                   for s, vals, tm in gs)
         recv = b.origin(t['args'][0])
-        return (okg and need <= hs and mentions_field(recv, 'buf'),
+        return (okg and need <= hs and mentions_field(recv, RBUF),
                 '%s on %s: dominated by the false edge of remaining() < %d: %r; bytes read by all header getters: %d' % (what, show(recv), hs, okg, need))
     # (f) copy_to_bytes(buf, buf.remaining()): takes exactly what is there
     if kind == 'buf' and 'copy_to_bytes' in what:
@@ -455,9 +456,9 @@ def discharge(tonic, b, bb, kind, what, t, dc):
             okc = False
             for s, vals, tm in cg:
                 # false edge of `buf.remaining() < len` (possibly one disjunct of an ||)
-                if tm[0] == 'bin' and tm[1] == 'Lt' and vals == [0] and (is_call(strip_refs(tm[2]), name='remaining') or is_call(strip_refs(tm[2]), name='len')) and mentions_field(tm[2], 'buf'):
+                if tm[0] == 'bin' and tm[1] == 'Lt' and vals == [0] and (is_call(strip_refs(tm[2]), name='remaining') or is_call(strip_refs(tm[2]), name='len')) and mentions_field(tm[2], RBUF):
                     okc = True
-            ok_sites = ok_sites and okc and mentions_field(bufarg, 'buf')
+            ok_sites = ok_sites and okc and mentions_field(bufarg, RBUF)
         arg = b.origin(t['args'][1]) if kind == 'index' else b.origin(t['args'][1])
         return (ok_sites and len(sites) == 1,
                 '%s in decompress uses the `len` parameter; its only call site (%d found) is dominated by the false edge of buf.remaining() < len: %r' % (what, len(sites), ok_sites))
